@@ -154,13 +154,13 @@ def product_identity_rule(ctx):
 
 def reduction_rule(ctx, rid="R11.2"):
     repo = ctx.repo
-    r = ctx.rule(rid, "_Apply_basis_transformation: plane stress takes the in-plane block of the compliance and inverts it, plane strain takes the block of the stiffness; index set = Kelvin in-plane set [0,1,5]", min_instances=2)
+    r = ctx.rule(rid, "_Apply_basis_transformation: plane stress takes the in-plane block of the compliance and inverts it, plane strain takes the block of the stiffness; index set = Kelvin in-plane set [0,1,5]; for one matrix, one per element and one per integration point", min_instances=6)
     ci = repo.cls(f"{LAWS}._Elastic")
     f = ci.methods["_Apply_basis_transformation"]
-    sM_in = XArray((6, 6), [Poly.var(f"ms{i}{j}") for i in range(6) for j in range(6)])
-    cM_in = XArray((6, 6), [Poly.var(f"mc{i}{j}") for i in range(6) for j in range(6)])
-    S = XArray((6, 6), [Poly.var(f"S{i}{j}") for i in range(6) for j in range(6)])
-    C = XArray((6, 6), [Poly.var(f"C{i}{j}") for i in range(6) for j in range(6)])
+    sM_in = sM0 = XArray((6, 6), [Poly.var(f"ms{i}{j}") for i in range(6) for j in range(6)])
+    cM_in = cM0 = XArray((6, 6), [Poly.var(f"mc{i}{j}") for i in range(6) for j in range(6)])
+    S = S0 = XArray((6, 6), [Poly.var(f"S{i}{j}") for i in range(6) for j in range(6)])
+    C = C0 = XArray((6, 6), [Poly.var(f"C{i}{j}") for i in range(6) for j in range(6)])
 
     def hook(fn, args, kwargs):
         if isinstance(fn, FuncInfo) and fn.name == "Get_Pmat":
@@ -181,22 +181,47 @@ def reduction_rule(ctx, rid="R11.2"):
         return NotImplemented
 
     keep = [0, 1, 5]
-    for ps in (True, False):
-        r.instance(fn=f.qualname)
-        I = Interp(repo)
-        I.call_hook = hook
-        obj = XObj(ci, dict(planeStress=ps))
-        a1 = XArray((3,), [Q(0), Q(1), Q(0)])
-        a2 = XArray((3,), [Q(-1), Q(0), Q(0)])
-        c, s = I.call_function(f, [2, cM_in, sM_in, a1, a2], self_obj=obj)
-        src, lab = (S, "compliance") if ps else (C, "stiffness")
-        direct, inv = (s, c) if ps else (c, s)
-        ok = isinstance(direct, XArray) and direct.shape == (3, 3) and all(direct[a, b] == src[keep[a], keep[b]] for a in range(3) for b in range(3))
-        ok = ok and isinstance(inv, InvOf) and isinstance(inv.arg, XArray) and inv.arg.data == direct.data
-        if ok:
-            r.ok(f"planeStress={ps}: in-plane block [0,1,5] of the rotated {lab}, the other matrix is its inverse")
-        else:
-            r.fail(f.qualname, f"planeStress={ps}", f.file, f.lineno, "_Apply_basis_transformation", f"planeStress={ps}: the 2-D law is not (block [0,1,5] of the material -> global rotated {lab} P M P^T, inverse of that block): stiffness and compliance must be turned by the SAME rotation")
+    # the law may be one matrix, one per element (Ne, 6, 6) or one per integration point (Ne, nPg, 6, 6): the reduction of each
+    # form reads the ROTATED matrices
+    import itertools as _it
+
+    def field(name, lead):
+        return XArray(lead + (6, 6), [Poly.var(f"{name}{''.join(str(k) for k in ix[:-2])}_{ix[-2]}{ix[-1]}") for ix in _it.product(*[range(k) for k in lead + (6, 6)])])
+
+    for lead in ((), (2,), (2, 2)):
+        for ps in (True, False):
+            r.instance(fn=f.qualname)
+            if lead:
+                sM_in, cM_in, S, C = field("ms", lead), field("mc", lead), field("S", lead), field("C", lead)
+            else:
+                sM_in, cM_in, S, C = sM0, cM0, S0, C0
+            form = {(): "one matrix", (2,): "one matrix per element", (2, 2): "one matrix per integration point"}[lead]
+
+            def hook_l(fn, args, kwargs, sM_in=sM_in, cM_in=cM_in, S=S, C=C):
+                if isinstance(fn, FuncInfo) and fn.name == "Apply_Pmat":
+                    if not kwargs.get("toGlobal", True if len(args) < 3 else args[2]):
+                        return field("St" if args[1] is sM_in else "Ct", lead)
+                    return S if args[1] is sM_in else (C if args[1] is cM_in else Opaque("?"))
+                return hook(fn, args, kwargs)
+
+            I = Interp(repo)
+            I.call_hook = hook_l
+            obj = XObj(ci, dict(planeStress=ps))
+            a1 = XArray((3,), [Q(0), Q(1), Q(0)])
+            a2 = XArray((3,), [Q(-1), Q(0), Q(0)])
+            try:
+                c, s = I.call_function(f, [2, cM_in, sM_in, a1, a2], self_obj=obj)
+            except XRaise as e:
+                r.fail(f.qualname, f"planeStress={ps}:{form}", f.file, f.lineno, "_Apply_basis_transformation", f"planeStress={ps}, {form}: raises {e}")
+                continue
+            src, lab = (S, "compliance") if ps else (C, "stiffness")
+            direct, inv = (s, c) if ps else (c, s)
+            ok = isinstance(direct, XArray) and direct.shape == lead + (3, 3) and all(direct[ix + (a, b)] == src[ix + (keep[a], keep[b])] for ix in _it.product(*[range(k) for k in lead]) for a in range(3) for b in range(3))
+            ok = ok and isinstance(inv, InvOf) and isinstance(inv.arg, XArray) and inv.arg.data == direct.data
+            if ok:
+                r.ok(f"planeStress={ps}, {form}: in-plane block [0,1,5] of the rotated {lab}, the other matrix is its inverse")
+            else:
+                r.fail(f.qualname, f"planeStress={ps}" + ("" if not lead else f":{form}"), f.file, f.lineno, "_Apply_basis_transformation", f"planeStress={ps}, {form}: the 2-D law is not (block [0,1,5] of the material -> global rotated {lab} P M P^T, inverse of that block): stiffness and compliance must be turned by the SAME rotation, whatever the form the moduli are given in")
     # 3D: untouched
     r.instance(fn=f.qualname)
     I = Interp(repo)
@@ -732,21 +757,69 @@ def admissibility_rule(ctx, rid="R11.13"):
     material of the class, with the stiff direction first or last), and a compliance that is not positive definite
     (a 2 x 2 principal minor or the determinant of the normal block not positive) must be REFUSED."""
     repo = ctx.repo
-    r = ctx.rule(rid, "admissible moduli: at exact parameter points `_Behavior` accepts the material iff the compliance literal is positive definite (2 x 2 minors and determinant of the normal block; stiff axis first, second or last; orthotropic and transversely isotropic)", min_instances=40)
+    r = ctx.rule(rid, "admissible moduli: at exact parameter points inside the declared parameter ranges of the pinned version, the parameter descriptors and `_Behavior` accept the material iff the compliance literal is positive definite (2 x 2 minors and determinant of the normal block; stiff axis first, second or last; orthotropic and transversely isotropic)", min_instances=40)
     pts = []
-    # Orthotropic: (E1, E2, E3) permutations of (16, 4, 1); v_ij = t_ij sqrt(E_i / E_j) with |t| < 1 inside the 2 x 2 bounds
-    for E in ((16, 4, 1), (1, 4, 16), (4, 16, 1), (1, 16, 4), (4, 1, 16), (16, 1, 4)):
+    # every point lies inside the parameter ranges the pinned version declares (reference table: Poisson ratios of the orthotropic
+    # law and vl in ]-1, 1/2[, vt in ]-1, 1[): a range narrowed later refuses materials that are positive definite
+    # Orthotropic: (E1, E2, E3) permutations of (1, 16, 256); the 2 x 2 bounds sqrt(E_i / E_j) are 1/4, 1/16 (they bite inside the
+    # declared range) or 4, 16 (they do not)
+    for E in ((1, 16, 256), (256, 16, 1), (16, 256, 1), (16, 1, 256), (1, 256, 16), (256, 1, 16)):
         E1, E2, E3 = (Q(x) for x in E)
-        r23, r13, r12 = (MQ.sqrt(E2 / E3), MQ.sqrt(E1 / E3), MQ.sqrt(E1 / E2))
-        rr = [x.rational() for x in (r23, r13, r12)]
-        for t in ((Q(1, 2), Q(1, 4), Q(1, 4)), (Q(3, 4), Q(0), Q(0)), (Q(0), Q(3, 4), Q(0)), (Q(0), Q(0), Q(-3, 4)), (Q(5, 4), Q(0), Q(0)), (Q(0), Q(-5, 4), Q(0)), (Q(0), Q(0), Q(5, 4))):
-            pts.append(("Orthotropic", dict(E1=E1, E2=E2, E3=E3, G23=Q(3), G13=Q(5), G12=Q(7), v23=t[0] * rr[0], v13=t[1] * rr[1], v12=t[2] * rr[2])))
-    # all 2 x 2 minors positive, determinant negative (Poisson ratios inside the range of the parameter descriptors)
+        bounds = [MQ.sqrt(E2 / E3).rational(), MQ.sqrt(E1 / E3).rational(), MQ.sqrt(E1 / E2).rational()]
+        for k in range(3):
+            vals = [bounds[k] * Q(3, 4), bounds[k] * Q(5, 4), -bounds[k] * Q(3, 4)] if bounds[k] <= Q(1, 4) else [Q(2, 5), Q(-2, 5)]
+            for v in vals:
+                vv = [Q(0)] * 3
+                vv[k] = v
+                pts.append(("Orthotropic", dict(E1=E1, E2=E2, E3=E3, G23=Q(3), G13=Q(5), G12=Q(7), v23=vv[0], v13=vv[1], v12=vv[2])))
+        half = [min(b, Q(4, 5)) / 2 for b in bounds]
+        pts.append(("Orthotropic", dict(E1=E1, E2=E2, E3=E3, G23=Q(3), G13=Q(5), G12=Q(7), v23=half[0], v13=half[1] / 2, v12=half[2] / 2)))
+    # all 2 x 2 minors positive, determinant negative
     pts.append(("Orthotropic", dict(E1=Q(1), E2=Q(4), E3=Q(16), G23=Q(3), G13=Q(5), G12=Q(7), v23=Q(2, 5), v13=Q(1, 5), v12=Q(2, 5))))
     pts.append(("Orthotropic", dict(E1=Q(1), E2=Q(4), E3=Q(16), G23=Q(3), G13=Q(5), G12=Q(7), v23=Q(1, 5), v13=Q(1, 10), v12=Q(1, 5))))
     # transversely isotropic: positive definite iff -1 < vt and 1 - vt - 2 vl^2 Et / El > 0
-    for El, Et, vl, vt in ((1, 16, Q(1, 5), Q(9, 20)), (1, 16, Q(1, 10), Q(9, 20)), (16, 1, Q(1, 4), Q(1, 4)), (16, 1, Q(2, 5), Q(9, 10)), (1, 4, Q(2, 5), Q(-1, 2)), (1, 1, Q(2, 5), Q(7, 10))):
+    for El, Et, vl, vt in ((1, 16, Q(1, 5), Q(9, 20)), (1, 16, Q(1, 10), Q(9, 20)), (16, 1, Q(1, 4), Q(1, 4)), (16, 1, Q(2, 5), Q(9, 10)), (1, 4, Q(2, 5), Q(-1, 2)), (1, 1, Q(2, 5), Q(7, 10)),
+                           (1, 1, Q(1, 10), Q(7, 10)), (4, 1, Q(0), Q(19, 20)), (1, 1, Q(-9, 10), Q(-1, 2)), (1, 1, Q(2, 5), Q(-9, 10))):
         pts.append(("TransverselyIsotropic", dict(El=Q(El), Et=Q(Et), Gl=Q(3), vl=vl, vt=vt)))
+    params_mod = "EasyFEA.Utilities._params"
+
+    def declared(ci):
+        """{parameter: (descriptor class, keyword arguments)} read from the class body"""
+        out = {}
+        for c in ci.mro:
+            for st in c.node.body:
+                if isinstance(st, ast.AnnAssign) and isinstance(st.target, ast.Name) and isinstance(st.value, ast.Call) and st.target.id not in out:
+                    d = (dotted(st.value.func) or "").split(".")[-1]
+                    if d.endswith("Parameter"):
+                        kw = {}
+                        for k in st.value.keywords:
+                            try:
+                                kw[k.arg] = Q(str(ast.literal_eval(k.value)))
+                            except Exception:
+                                kw[k.arg] = None
+                        out[st.target.id] = (d, kw)
+        return out
+
+    def descriptor_refuses(I, ci, name, value):
+        d = declared(ci).get(name)
+        if d is None:
+            return None
+        dname, kw = d
+        try:
+            dci = repo.cls(f"{params_mod}.{dname}")
+        except Exception:
+            return None
+        fchk = repo.lookup_method(dci, "_checker")
+        if fchk is None:
+            return None
+        dobj = XObj(dci, {dci.mangle("__" + k): v for k, v in kw.items()})
+        try:
+            I.call_function(fchk, [value], self_obj=dobj)
+        except XRaise as e:
+            return f"{name} = {value}: {dname}({', '.join(f'{k}={v}' for k, v in kw.items())}) refuses it ({e.msg or e.exc_name})"
+        return None
+
+    tally = {"accepted": 0, "refused": 0}
     for cname, prm in pts:
         ci = repo.cls(f"{LAWS}.{cname}")
         f = ci.methods["_Behavior"]
@@ -765,8 +838,12 @@ def admissibility_rule(ctx, rid="R11.13"):
         I.call_hook = base_hook
         r.instance(fn=f.qualname)
         refused = None
+        # the parameter descriptors run first (at construction and at every assignment)
+        for pn, pv in prm.items():
+            refused = refused or descriptor_refuses(I, ci, pn, pv)
         try:
-            I.call_function(f, [3], self_obj=obj)
+            if refused is None:
+                I.call_function(f, [3], self_obj=obj)
         except XRaise as e:
             if e.exc_name != "AssertionError":
                 r.fail(f.qualname, f"raises:{e.exc_name}", f.file, f.lineno, f"{cname}._Behavior", f"raises {e} at {prm}")
@@ -787,4 +864,7 @@ def admissibility_rule(ctx, rid="R11.13"):
         elif not spd and refused is None:
             r.fail(f.qualname, "accepts-indefinite-2x2" if bad2 else "accepts-indefinite", f.file, f.lineno, f"{cname}._Behavior", f"a material whose compliance is not positive definite ({label}: {'a 2 x 2 principal minor' if bad2 else 'the determinant of the normal block'} is not positive) is accepted: the stiffness handed out is not positive definite")
         else:
+            tally["accepted" if refused is None else "refused"] += 1
             r.ok(f"{cname} {label}: {'accepted' if refused is None else 'refused'} ({'positive definite' if spd else 'indefinite'})")
+    if min(tally.values()) < 10:
+        raise AnalysisError(f"{rid}: the parameter points no longer exercise both verdicts ({tally})")
